@@ -6,6 +6,7 @@ import threading
 
 from billiard.synchronize import Condition, Event
 from lib.cothread import Co
+from lib.replay import Unrealizable
 
 
 class _SemLockView:
@@ -173,21 +174,66 @@ class CondAdapter:
             except Exception:
                 pass
 
+    free = False
+
+    def set_free(self):
+        """after a divergence: the schedule (which thread moves) is still the behaviour's, what
+        the thread does is whatever the implementation is about to do"""
+        self.free = True
+
+    def _runnable(self, t):
+        """None if thread t cannot move, else the command that lets it take its pending step"""
+        co = self.cos[t]
+        pend = self.pending[t]
+        if co.finished or not isinstance(pend, tuple) or pend[0] == 'crashed':
+            return None
+        sem, op, timed = pend
+        if op != 'acq':
+            return 'go'
+        s = self.ctx.sems[sem]
+        if s.value > 0 or (s.kind == 'rlock' and s.owner is co.thread):
+            return 'go'
+        return 'timeout' if timed else None
+
+    def quiesce(self):
+        """let every thread run on (round robin) until nobody can move"""
+        out = []
+        moved = True
+        n = 0
+        while moved and n < 400:
+            moved = False
+            for t in sorted(self.cos):
+                if self._runnable(t) is None:
+                    continue
+                sem, op, _ = self.pending[t]
+                a = self.step({'name': 'Step', 't': t, 'sem': sem, 'op': op, 'ok': True})
+                out.append((a, self.project()))
+                moved = True
+                n += 1
+        return out
+
     def step(self, act):
         t = act['t']
         co = self.cos[t]
         pend = self.pending[t]
-        if co.finished or not isinstance(pend, tuple) or pend[0] == 'crashed':
-            raise AssertionError('thread %d has nothing to do: %r' % (t, pend))
-        sem, op, timed = pend
-        if (sem, op) != (act['sem'], act['op']):
-            raise AssertionError('thread %d is about to %s %s, the specification says %s %s'
-                                 % (t, op, sem, act['op'], act['sem']))
-        cmd = 'go'
-        if act['op'] == 'acq' and not act['ok']:
-            if not timed:
-                raise AssertionError('untimed acquire cannot time out')
-            cmd = 'timeout'
+        if self.free:
+            cmd = self._runnable(t)
+            if cmd is None:
+                raise Unrealizable('thread %d cannot move' % t)
+            sem, op, timed = pend
+            act = dict(act, sem=sem, op=op)
+        else:
+            if co.finished or not isinstance(pend, tuple) or pend[0] == 'crashed':
+                raise AssertionError('thread %d has nothing to do: %r' % (t, pend))
+            sem, op, timed = pend
+            if (sem, op) != (act['sem'], act['op']):
+                raise AssertionError('thread %d is about to %s %s, the specification says %s %s'
+                                     % (t, op, sem, act['op'], act['sem']))
+            cmd = 'go'
+            if act['op'] == 'acq' and not act['ok']:
+                if not timed:
+                    raise AssertionError('untimed acquire cannot time out')
+                cmd = 'timeout'
         self.finished_op = None
         if self.hist[t] is None:
             self.hist[t] = []
